@@ -323,3 +323,32 @@ def volume_refine(ctx, deg, m, dens):
                    and len(vol.ctrlpts) == exp[0] * exp[1] * exp[2])
     want = spec.volume_point(deg[0], deg[1], deg[2], kvs[0], kvs[1], kvs[2], P, su, sv, sw, prm[0], prm[1], prm[2])
     ctx.check_eq_vec('shape.unchanged', vol.evaluate_single(prm), want)
+
+
+@scenario('C05', fns=['helpers.knot_refinement'],
+          quick=[dict(p=2, mult=[1], cols=2, d=1), dict(p=1, mult=[1], cols=3, d=1), dict(p=2, mult=[], cols=2, d=2)])
+def helper_refine_rows(ctx, p, mult, cols, d):
+    """requires: helpers.knot_refinement on a net given as ROWS of points (one row per index of the refined direction,
+                 `cols` points per row - the form used for surfaces and volumes), default knot list, density d
+       ensures : column j of the refined net is the refinement of column j taken as a curve (the rows are refined
+                 independently of each other); the same call repeated with the same arguments gives the same net and knot
+                 vector (the caller's net is not consumed by the first call)"""
+    U, inner, n = shapes.make_kv(ctx, p, mult)
+    for x, y in zip([U[0]] + inner, inner + [U[-1]]):
+        ctx.assume(ctx.gt(y - x, TOL * 2 ** d))
+    hp = ctx.geomdl('helpers')
+    net = [[[ctx.num('N%d_%d' % (i, j)), ctx.lit(Fraction(i * i + j, 2)), ctx.lit(i - j)] for j in range(cols)] for i in range(n)]
+    arg = [[list(q) for q in row] for row in net]
+    first, kv1 = hp.knot_refinement(p, list(U), arg, density=d)
+    ctx.check_true('rows.shape', all(len(row) == cols for row in first))
+    for j in range(cols):
+        col, kvc = hp.knot_refinement(p, list(U), [list(net[i][j]) for i in range(n)], density=d)
+        ctx.check_eq_vec('column%d.knotvector' % j, kvc, kv1)
+        ctx.check_true('column%d.len' % j, len(col) == len(first))
+        if len(col) == len(first):
+            ctx.check_eq_grid('column%d=refinement_of_the_column_curve' % j, [row[j] for row in first], col)
+    again, kv2 = hp.knot_refinement(p, list(U), arg, density=d)
+    ctx.check_eq_vec('repeated_call.knotvector', kv2, kv1)
+    ctx.check_true('repeated_call.len', len(again) == len(first))
+    for i in range(min(len(again), len(first))):
+        ctx.check_eq_grid('repeated_call.row%d' % i, again[i], first[i])
